@@ -30,6 +30,8 @@ pub struct Profile {
     pub wide_pm: u64,
     pub small_limit_pm: u64,
     pub tracing: bool,
+    /// tracing plans in which some steps drive a nested run of the same crate (per mille)
+    pub nested_pm: u64,
     /// Force "no failing outcome anywhere" (C08 differential).
     pub no_failures: bool,
     /// Names / doc strings with quotes, markup, backslashes and non-ASCII characters (reporters).
@@ -65,6 +67,7 @@ impl Profile {
             wide_pm: if thorough { 15 } else { 0 },
             small_limit_pm: 650,
             tracing: false,
+            nested_pm: 0,
             no_failures: false,
             spicy: false,
             dup_names_pm: 60,
@@ -148,6 +151,7 @@ impl Profile {
             }
             "C20" => {
                 p.tracing = true;
+                p.nested_pm = 150;
                 p.hooks_pm = 700;
                 p.lazy_parser_pm = 200;
             }
@@ -676,6 +680,7 @@ pub fn gen_plan(seed: u64, prof: &Profile) -> Plan {
     let tracing_targets_only = prof.tracing && r.chance(1, 8);
     let late_logs = prof.tracing && !tracing_targets_only && r.chance(1, 2);
     let plain_logs = prof.tracing && r.chance(1, 4);
+    let nested_runs = prof.tracing && !tracing_targets_only && !plain_logs && prof.nested_pm > 0 && r.chance(prof.nested_pm, 1000);
     let tags_filter = (prof.pipeline_pm > 0 && r.chance(1, 8))
         .then(|| (*r.pick(&["not @serial", "not @allow.skipped", "@serial or not @allow.skipped", "@allow.skipped and not @serial", "@allow.skipped or @serial"])).to_owned());
     let mut cfg = cfg;
@@ -706,5 +711,6 @@ pub fn gen_plan(seed: u64, prof: &Profile) -> Plan {
         tracing_targets_only,
         late_logs,
         plain_logs,
+        nested_runs,
     }
 }
